@@ -288,7 +288,7 @@ def normalizeUrl (cwd : Bytes) (base : Option Bytes) (url0 : Bytes) : Norm :=
               .remote bparts.scheme bparts.netloc (some (normpath (joinPath bpath path)))
             else viaCwd
 
-/-! ### access_control (xml_resource.py:318-330) -/
+/-! ### access_control (xml_resource.py:318-333, after fix 600200c) -/
 
 inductive Allow where
   | all | remote | loc | sandbox | none
@@ -311,9 +311,10 @@ def accessControl (a : Allow) (baseNorm : Option Bytes) (url : Option Bytes) : D
     | .all => .ok
     | .none => .blockedNone
     | .remote => if isLocalUrl u then .blockedLocal else .ok
-    | .loc => if isRemoteUrl u then .blockedRemote else .ok
+    -- fix 600200c: `elif not is_local_url(url)`: whatever is not positively local is refused as remote
+    | .loc => if !isLocalUrl u then .blockedRemote else .ok
     | .sandbox =>
-      if isRemoteUrl u then .blockedRemote
+      if !isLocalUrl u then .blockedRemote
       else match baseNorm with
         | none => .ok
         | some b => if sandboxOk b u then .ok else .blockedSandbox
